@@ -38,6 +38,11 @@ CHECKS = {
         "existence abort checks in remove/lookup; get_app_pointer uses total_memory-1, checks the fabricated address and builds the owner from the same token; app_pointer moves/releases like a unique owner. "
         "The complete reachable state space of the table is not enumerated (model-checking question).",
    note="trusted: std::map semantics; clang front end; engine", ref="3/C15"),
+ "C11": dict(level="other", technique="routing/identity analysis over the path-sensitive event model (one backend call per path, one-to-one argument provenance, cache filler uniqueness)",
+   text="Decides routing and identity, not values: on every path of every instantiated invocation (0..12 parameters, all wrapper forms, by-value structs, by-name and static modes, four backends) the backend is called exactly once "
+        "with the func_ptr parameter; backend argument i depends on parameter i and on no other; the result is converted from the backend's return value with this sandbox instance; lookup caches are per-instance, keyed by the looked-up name, "
+        "written under the unique guard, and each cache has a single backend filler; the bundled backends call *func_ptr once with all parameters. Value faithfulness per argument kind is C04/C06/C08.",
+   note="trusted: clang front end; engine; dynamic loader semantics; what the guest function observes at run time is outside static reach", ref="3/C11"),
 }
 NA_REASON = "check under construction in this revision (see DESIGN.md section 3 for the planned static rules); not claimed yet"
 
